@@ -188,6 +188,39 @@ def full_W3(tier):
     return ev
 
 
+def core_W4():
+    rows8 = ["A", "B", "C", "D", "E", "F", "G", "H"]
+    return [
+        T("P", ["A01", "H12", "D10", "H01"], "Q", ["A01", "P24", "J10", "P01"], [7.5, 30, 70, 120]),
+        T("T", [f"{r}01" for r in rows8], "P", [f"{r}10" for r in rows8], 30),
+        T("T", ["H03", "A02"], "Q", ["P24", "A13"], [70, 7.5]),
+        T("Q", ["P24", "J10"], "P", ["H12", "A11"], [7.5, 7.5]),
+        T("P", {"$w2d": ["P", 0, 8, 11, 12]}, "Q", {"$w2d": ["Q", 8, 16, 23, 24]}, 7.5),
+        R("T", 2, "Q", ["A01", "P24", "B13", "P23", "A24"], 7.5),
+        R("T", 1, "P", {"$w2d": ["P", 0, 8, 9, 12]}, 7.5),
+        A("P", {"$w2d": ["P", 0, 8, 10, 12]}, 7.5),
+        D("Q", ["P24", "A24", "P01", "J10"], [1.5, 2.5, 3.5, 4.5]),
+    ]
+
+
+def full_W4(tier):
+    ev = []
+    for pb in PART:
+        ev.append(T("P", ["H12", "A12", "D01", "H10"], "Q", ["P01", "A24", "P24", "K11"], [120, 7.5, 70, 30], partition_by=pb))
+        ev.append(T("T", ["H01", "A01", "D02", "B03"], "Q", ["A10", "P10", "H09", "I24"], [120, 30, 7.5, 70], partition_by=pb, wash_scheme="flush"))
+    ev += [
+        T("T", "E03", "Q", {"$w2d": ["Q", 0, 16, 9, 10]}, 7.5),
+        T("P", {"$w2d": ["P", 0, 8, 0, 12]}, "Q", {"$w2d": ["Q", 8, 16, 12, 24]}, 1.5),
+        R("T", 0, "Q", {"$w2d": ["Q", 0, 16, 0, 24]}, 7.5, multi_disp=6),
+        R("T", 1, "Q", {"$w2d": ["Q", 1, 16, 22, 24]}, 30),
+        R("T", 2, "P", ["H12"], 50),
+        R("T", 0, "T", ["A03"], 30),
+        A("T", ["A01", "H01", "D02", "H03"], [1.5, 2.5, 3.5, 4.5]),
+        D("P", {"$w2d": ["P", 6, 8, 8, 12]}, {"$a": [[1.5, 2.5, 3.5, 4.5], [5.5, 6.5, 7.5, 8.5]]}),
+    ]
+    return ev
+
+
 def inexact_events():
     third = {"$hex": (1 / 3).hex()}
     return [
@@ -204,11 +237,12 @@ def inexact_events():
     ]
 
 
-SETS = {"W1": (cm.W1, core_W1, full_W1), "W2": (cm.W2, core_W2, full_W2), "W3": (cm.W3, core_W3, full_W3)}
+SETS = {"W1": (cm.W1, core_W1, full_W1), "W2": (cm.W2, core_W2, full_W2), "W3": (cm.W3, core_W3, full_W3), "W4": (cm.W4, core_W4, full_W4)}
 
 
 class Harness(cm.BaseA):
     id = "C01"
+    fresh_quick = True  # every transition is re-executed from a fresh world (hidden state, aliasing)
     rule = (
         "every sequence of <= depth core operations followed by any one operation of the full alphabet, from "
         "every configuration (3 labware sets x 2 devices, plus non-dyadic rounding configurations); a case is "
